@@ -100,6 +100,8 @@ MUTANTS = [
      "        foreign_components = set(foreign_components).union(FlowIR.discover_placeholder_identifiers(foreign_components))\n", ""),
     ('c07-component-order-from-a-set-unfixed', 'C07', 'c07', 100, 'python/experiment/model/frontends/flowir.py',
      "        for comp_id in sorted(comp_identifiers):\n            stage, name = comp_id", "        for comp_id in comp_identifiers:\n            stage, name = comp_id"),
+    ('c14-listing-not-restored-on-restart-unfixed', 'C14', 'c14rt', 128, 'python/experiment/runtime/output.py',
+     "        self._restore_recorded_status()\n", "        pass\n"),
     ('c14-instance-description-written-in-place', 'C14', 'c14rt', 192, 'python/experiment/model/conf.py',
      "        temp_file = '%s.%s.tmp' % (instance_file, uuid.uuid4())\n", "        temp_file = instance_file\n"),
     ('c14-status-written-in-place', 'C14', 'c14rt', 192, 'python/experiment/model/data.py',
